@@ -185,6 +185,7 @@ func runRules(pr *Prog, id string, rs *ruleSet, tier, only string, t0 time.Time)
 		}()
 		curProg = pr
 		canonCache = map[ssa.Value]canonCond{}
+		activeRules = map[string]bool{id: true}
 		rs.run(pr, l)
 	}()
 	return l
@@ -250,6 +251,21 @@ func decideOnVariants(pr *Prog, l *Ledger, open []*Obligation, id string, rs *ru
 		pv.Variant = v.name
 		lv := runRules(pv, id, rs, tier, "", t0)
 		if len(lv.infraErrs) > 0 || len(lv.Unlisted(verif, rs.floors)) > 0 {
+			// the as-written report stands; where it could only say "shape not recognised" and the variant names the
+			// violating construct, say that instead (the variant is an equivalent program: what it violates the program violates)
+			for _, o := range l.Obls {
+				if o.Verdict != Undecided {
+					continue
+				}
+				if ov := lv.byKey[o.Key]; ov != nil && ov.Verdict == Violated {
+					o.Verdict = Violated
+					o.Detail = ov.Detail + " (found on the equivalent program with the new helpers inlined; as written: " + o.Detail + ")"
+					o.Witness = ov.Witness
+					if ov.Anchor != "" {
+						o.Anchor = ov.Anchor
+					}
+				}
+			}
 			continue
 		}
 		var keys []string
@@ -349,14 +365,23 @@ func treeIsValidated(repo, verif string) bool {
 // importObligations runs another property's rules on the same program and copies the obligations selected by keep
 // into l under rule id `as` (the imported property's clauses are prerequisites of l's property; they are decided by
 // the same code as in their own check).
+// activeRules: the properties whose rules are running (the one being decided and the chain of imports), so that two
+// properties can import each other's obligations without recursing.
+var activeRules = map[string]bool{}
+
 func importObligations(p *Prog, l *Ledger, from, as string, keep func(o *Obligation) bool) int {
 	rs := registry[from]
 	if rs == nil {
 		l.Infra("cannot import obligations of %s", from)
 		return 0
 	}
+	if activeRules[from] {
+		return 0 // the importing chain started there: its obligations are already on the report
+	}
+	activeRules[from] = true
 	sub := NewLedger(from, l.Tier)
 	rs.run(p, sub)
+	delete(activeRules, from)
 	n := 0
 	for _, o := range sub.Obls {
 		if keep != nil && !keep(o) {
